@@ -22,6 +22,9 @@ for d in sorted((V / "seeded").iterdir()):
     det = meta.get("detected_by") or {}
     sigs = det.get("signatures") or []
     caught = "yes" if det.get("exit") == 1 and sigs else ("NO" if det else "not run")
+    if caught == "NO" and meta.get("cross_detected_by"):
+        caught = f"no - by {meta['cross_detected_by']['check']} (see note)"
+        sigs = meta["cross_detected_by"]["signatures"]
     s = "; ".join(f"`{x}`".replace("|", "\\|") for x in sigs[:2]) + (f" (+{det.get('n_signatures',0)-2} more)" if det.get("n_signatures", 0) > 2 else "")
     needs = meta["needs_to_manifest"].replace("|", "\\|")
     rows.append(f"| {d.name} | {meta['property']} | {needs} | {caught} | {s} |")
